@@ -106,10 +106,11 @@ type Specs struct {
 	Consts    map[string]string // ghost named constants
 	Abstract  map[string]Sort   // "btree.Map" -> sort of its abstract value
 	Regions   []*Region
+	FieldInv  map[string]string // "pkg.Type.field" -> "nonnil": holds for every allocated object (field assigned only by constructors)
 }
 
 func newSpecs() *Specs {
-	return &Specs{Contracts: map[string]*Contract{}, Ghosts: map[string]*GhostFunc{}, GhostVars: map[string]*GhostVar{}, Consts: map[string]string{}, Abstract: map[string]Sort{}}
+	return &Specs{Contracts: map[string]*Contract{}, Ghosts: map[string]*GhostFunc{}, GhostVars: map[string]*GhostVar{}, Consts: map[string]string{}, Abstract: map[string]Sort{}, FieldInv: map[string]string{}}
 }
 
 var reLabel = regexp.MustCompile(`^\[([A-Za-z0-9_.:=,|<>+\-]+)\]\s*`)
@@ -516,7 +517,7 @@ func (sp *Specs) loadSpecFile(path, pkgPrefix string, assumed bool) error {
 			} else {
 				cur.Ensures = append(cur.Ensures, cl)
 			}
-		case "loop":
+		case "loop", "closure":
 			if cur == nil {
 				return fmt.Errorf("%s:%d: clause outside func", path, l.ln)
 			}
@@ -527,6 +528,11 @@ func (sp *Specs) loadSpecFile(path, pkgPrefix string, assumed bool) error {
 			n, err := strconv.Atoi(f[0])
 			if err != nil {
 				return fmt.Errorf("%s:%d: loop ordinal: %v", path, l.ln, err)
+			}
+			if word == "closure" {
+				// `closure N invariant`: the N-th function literal handed to a callee that gives no iteration contract
+				// for it (it may be invoked any number of times): the invariant holds at the start of every invocation
+				n += 1000
 			}
 			ls := cur.Loops[n]
 			if ls == nil {
@@ -596,6 +602,13 @@ func (sp *Specs) loadSpecFile(path, pkgPrefix string, assumed bool) error {
 				return err
 			}
 			cur.Asserts[f[0]] = append(cur.Asserts[f[0]], cl)
+		case "fieldinv":
+			f := strings.Fields(rest)
+			if len(f) != 2 || f[1] != "nonnil" {
+				return fmt.Errorf("%s:%d: fieldinv pkg.Type.field nonnil", path, l.ln)
+			}
+			sp.FieldInv[f[0]] = f[1]
+			cur = nil
 		case "region":
 			i := strings.Index(rest, ":")
 			if i < 0 {
